@@ -15,6 +15,9 @@ CLAIMED = {
  "C02": ("algebraic normal form of every comparison against TotalVotingPower() + guard-dominance on tally/majority stores + key-covers-equality field sets",
          "Decides that every quorum comparison in the module has the strict >2/3 form, that power is tallied once per validator and only after verification, that maj23 is set only on the crossing, that VerifyCommit/MakeCommit obey their guards, and that the tally map key covers block-id equality; universal over executions of these functions, not a proof about vote histories.",
          "DESIGN.md §4 C02"),
+ "C11": ("field-flow coverage of the canonical sign-bytes builders and signing hashes + sign/verify sibling agreement (same canonicaliser callee) + guard-dominance on recovery and signature-value checks",
+         "Decides that every field of the signed canonical vote/proposal comes from the message (flags the hard-coded vote type as an open finding), that all sign and verify sites hash the same canonical bytes, that VerifySignature/Vote.Verify bind the signer, and that transaction signing hashes cover all fields with chain-id and high-s rejection before recovery. Cryptographic strength is trusted, not decided.",
+         "DESIGN.md §4 C11"),
  "C13": ("guard-dominance on part/proof/body checks + encoder/decoder sibling field-flow agreement + memo-key effect-set coverage + constant-table check of Merkle prefixes",
          "Decides that parts enter a part set only behind index, slot, proof and index-binding guards; that proof verification, Block.ValidateBasic and the proposal-block adoption path are complete checklists; that the header encoder covers every field and all hand-written codecs agree field by field; and that the validation memo key covers what the block hash does not. Does not decide byte-identical reassembly for arbitrary arrival orders.",
          "DESIGN.md §4 C13"),
